@@ -266,3 +266,61 @@ Proof.
   unfold deck_ok, lines_ok, nonblank_lines, blank_lines. cbn.
   repeat split; repeat constructor; discriminate.
 Qed.
+
+(* ---- layout -> split ---- *)
+
+(* a surface card laid out in ANY way (C14_content_layout) is split into the
+   same name, mnemonic and parameter string; the layout only decides whether
+   the parameter string ends with one blank *)
+Theorem C14_surface_card_layout :
+  forall (ls : list pline) (bc ds mn p : string) (ps : list string),
+  Forall line_ok ls -> flat_map ptoks ls = (bc ++ ds) :: mn :: p :: ps ->
+  all_chars is_bc bc = true -> all_chars is_digit ds = true -> ds <> "" ->
+  all_chars is_mnemo mn = true -> mn <> "" ->
+  surf_split (content (map line_text ls))
+  = Ok (bc ++ ds, "", mn, join " " (p :: ps) ++ pad (ends_ws (joined ls))).
+Proof. exact surface_card_layout. Qed.
+Print Assumptions C14_surface_card_layout.
+
+Theorem C14_surface_layout_invariant :
+  forall (ls ls' : list pline) (bc ds mn p : string) (ps : list string),
+  Forall line_ok ls -> Forall line_ok ls' ->
+  flat_map ptoks ls = (bc ++ ds) :: mn :: p :: ps -> flat_map ptoks ls' = flat_map ptoks ls ->
+  all_chars is_bc bc = true -> all_chars is_digit ds = true -> ds <> "" ->
+  all_chars is_mnemo mn = true -> mn <> "" ->
+  exists b b',
+    surf_split (content (map line_text ls)) = Ok (bc ++ ds, "", mn, join " " (p :: ps) ++ pad b) /\
+    surf_split (content (map line_text ls')) = Ok (bc ++ ds, "", mn, join " " (p :: ps) ++ pad b').
+Proof. exact surface_layout_invariant. Qed.
+Print Assumptions C14_surface_layout_invariant.
+
+(* numbered data card (M7, TR3, *TR3 ...) laid out in any way *)
+Theorem C14_data_card_layout :
+  forall (ls : list pline) (st ty ds : string) (ps : list string),
+  Forall line_ok ls -> flat_map ptoks ls = (st ++ ty ++ ds) :: ps ->
+  all_chars (ceq "*") st = true ->
+  all_chars nondigit ty = true -> (exists c ty', ty = String c ty' /\ is_letter c = true) ->
+  all_chars is_digit ds = true -> ds <> "" ->
+  data_split (content (map line_text ls))
+  = Ok (st ++ ty, ds, "", match ps with [] => "" | _ => " " ++ join " " ps end
+                          ++ pad (ends_ws (joined ls))).
+Proof. exact data_card_layout. Qed.
+Print Assumptions C14_data_card_layout.
+
+Example C14_surface_card_layout_nonvacuous :
+  let ls := map snd ex_c1 in
+  Forall line_ok ls /\ flat_map ptoks ls = ("" ++ "1") :: "so" :: "5.0" :: [] /\
+  surf_split (content (map line_text ls)) = Ok ("1", "", "so", "5.0 ").
+Proof.
+  cbn. split; [|split; reflexivity].
+  unfold line_ok, item_ok, gap_nonempty, trailer_ok. cbn.
+  repeat (cbn; match goal with
+         | |- _ /\ _ => split
+         | |- Forall _ [] => constructor
+         | |- Forall _ (_ :: _) => constructor
+         | |- True => exact I
+         | |- _ <> _ => discriminate
+         | |- _ = _ => reflexivity
+         | |- _ \/ (exists c r, String ?x ?y = String c r /\ _) => right; exists x, y; split; reflexivity
+         end).
+Qed.
